@@ -61,6 +61,39 @@ Section Filter.
           cbn [negb andb orb]; try reflexivity;
           destruct (negb (tfile =? 0) && (tprio <=? priority)), (dthr <=? priority), (stream =? 0); reflexivity.
   Qed.
+
+  (* mapping the id twice is mapping it once; sc_log sees its argument only through the mapping *)
+  Lemma g_eff_pkg_idem package : g_eff_pkg (g_eff_pkg package) = g_eff_pkg package.
+  Proof.
+    unfold g_eff_pkg. destruct (package =? -1) eqn:Hp; cbn [orb]; [reflexivity|].
+    destruct (z2b (isr package)) eqn:Hr; cbn [negb]; [rewrite Hp, Hr|]; reflexivity.
+  Qed.
+
+  Lemma sc_log_eff package category priority msg :
+    sc_log isr pkt pkh dthr dh stream stdout ident tfile tprio (g_eff_pkg package) category priority msg =
+    sc_log isr pkt pkh dthr dh stream stdout ident tfile tprio package category priority msg.
+  Proof.
+    rewrite !sc_log_events. unfold g_eff_thr, g_eff_handler. rewrite !g_eff_pkg_idem. reflexivity.
+  Qed.
+
+  (* sc_logf / sc_logv (after repair 622fcc2): the id is mapped to the effective package FIRST, that
+     package's mutex is taken and released around the formatting, then sc_log *)
+  Lemma sc_logv_events package category priority fmt :
+    sc_logv isr pkt pkh dthr dh stream stdout ident tfile tprio package category priority fmt =
+    [(1, 0, 0, g_eff_pkg package, 0, 0, 0); (2, 0, 0, g_eff_pkg package, 0, 0, 0)]
+    ++ sc_log isr pkt pkh dthr dh stream stdout ident tfile tprio package category priority fmt.
+  Proof.
+    assert (E : (if negb (package =? -1) && negb (z2b (isr package)) then -1 else package) = g_eff_pkg package).
+    { unfold g_eff_pkg. destruct (package =? -1) eqn:Hp; cbn [negb andb orb]; [apply Z.eqb_eq in Hp; exact Hp|].
+      destruct (z2b (isr package)); reflexivity. }
+    unfold sc_logv. cbv zeta. rewrite E, <- (sc_log_eff package). reflexivity.
+  Qed.
+
+  (* the sc_logv of the pinned commit BEFORE repair 622fcc2 (kept to show what a revert would do):
+     lock and unlock of the id AS GIVEN, then sc_log *)
+  Definition sc_logv_old (package category priority fmt : Z) : list (Z * Z * Z * Z * Z * Z * Z) :=
+    [(1, 0, 0, package, 0, 0, 0); (2, 0, 0, package, 0, 0, 0)]
+    ++ sc_log isr pkt pkh dthr dh stream stdout ident tfile tprio package category priority fmt.
 End Filter.
 
 (* ------------------------------------------------------------------------------------------ *)
@@ -179,28 +212,92 @@ Proof.
   destruct (trace_on st q), (eff_threshold st package <=? q); reflexivity.
 Qed.
 
-(* sc_logf / sc_logv: lock and unlock of the package AS GIVEN, then sc_log *)
+(* sc_logf / sc_logv: lock and unlock of the EFFECTIVE package (the one sc_log uses), then sc_log *)
 Theorem logv_events st package c q msg :
   logv_st st package c q msg =
-  [(1, 0, 0, package, 0, 0, 0); (2, 0, 0, package, 0, 0, 0)] ++ log_st st package c q msg.
-Proof. reflexivity. Qed.
+  [(1, 0, 0, eff_pkg st package, 0, 0, 0); (2, 0, 0, eff_pkg st package, 0, 0, 0)] ++ log_st st package c q msg.
+Proof. unfold logv_st, log_st, eff_pkg. apply sc_logv_events. Qed.
 
 Theorem logv_deliveries st package c q msg :
   deliveries (logv_st st package c q msg) = deliveries (log_st st package c q msg).
 Proof. rewrite logv_events. reflexivity. Qed.
 
-(* the recorded finding: sc_logv locks an unregistered package's mutex where sc_log would have
-   used the default package *)
-Theorem logv_unregistered_refuted :
-  exists st package c q msg,
-    is_reg st package = 0 /\ package <> -1
-    /\ In (1, 0, 0, package, 0, 0, 0) (logv_st st package c q msg)
-    /\ lock_legal st package = false
-    /\ step false st (OLogv package c q msg) = None
-    /\ deliveries (log_full false st package c q msg) = [(0, BUILTIN, STDOUT, -1, c, q, msg)].
+Theorem logv_locks st package c q msg :
+  locks (logv_st st package c q msg) =
+  [(1, 0, 0, eff_pkg st package, 0, 0, 0); (2, 0, 0, eff_pkg st package, 0, 0, 0)]
+  ++ (if passes st c q then [(1, 0, 0, eff_pkg st package, 0, 0, 0); (2, 0, 0, eff_pkg st package, 0, 0, 0)] else []).
 Proof.
-  exists (init_state false), 0, 2, 5, 7. vm_compute. repeat split; try discriminate. left; reflexivity.
+  transitivity ([(1, 0, 0, eff_pkg st package, 0, 0, 0); (2, 0, 0, eff_pkg st package, 0, 0, 0)] ++ locks (log_st st package c q msg)).
+  - rewrite logv_events. reflexivity.
+  - rewrite log_locks. reflexivity.
 Qed.
+
+(* every mutex sc_logv touches exists *)
+Theorem logv_locks_legal st package c q msg e :
+  In e (locks (logv_st st package c q msg)) ->
+  (e = (1, 0, 0, eff_pkg st package, 0, 0, 0) \/ e = (2, 0, 0, eff_pkg st package, 0, 0, 0))
+  /\ lock_legal st (eff_pkg st package) = true.
+Proof.
+  rewrite logv_locks. intros H. split; [|apply eff_pkg_legal].
+  destruct (passes st c q); cbn in H; intuition congruence.
+Qed.
+
+(* the "Invalid package id" message of sc_package_is_registered: for ids below -1, ONE sc_logf of
+   the library itself (package sc_package_id, NORMAL, ERROR); nothing for every other id *)
+Theorem isreg_query_once dbg st package :
+  isreg_query dbg st package =
+  if package <? -1 then logv_st st (s_pkgid st) c19_const_lc_normal c19_const_lp_error MSG_INVALID_ID else [].
+Proof.
+  unfold isreg_query, isreg_side.
+  destruct (package =? -1) eqn:E1.
+  - apply Z.eqb_eq in E1; subst package. reflexivity.
+  - apply Z.eqb_neq in E1. destruct (package <? 0) eqn:E2.
+    + apply Z.ltb_lt in E2. replace (package <? -1) with true by (symmetry; apply Z.ltb_lt; lia).
+      destruct dbg; cbn [w_c19_lerror w_c19_lerror_dbg flat_map expand_own]; apply app_nil_r.
+    + apply Z.ltb_ge in E2. replace (package <? -1) with false by (symmetry; apply Z.ltb_ge; lia). reflexivity.
+Qed.
+
+(* sc_logf never ends the process, whatever the id; it is sc_log plus one lock/unlock of the effective package *)
+Theorem logv_step dbg st package c q msg :
+  step dbg st (OLogv package c q msg) =
+    Some (st, isreg_query dbg st package
+              ++ [(1, 0, 0, eff_pkg st package, 0, 0, 0); (2, 0, 0, eff_pkg st package, 0, 0, 0)]
+              ++ log_st st package c q msg)
+  /\ step dbg st (OLog package c q msg) = Some (st, isreg_query dbg st package ++ log_st st package c q msg).
+Proof. cbn [step]. unfold logv_full, log_full. rewrite logv_events. split; reflexivity. Qed.
+
+(* what repair 622fcc2 removed: the OLD sc_logv takes the mutex of an id that is not registered (and is
+   not -1) - a mutex that does not exist - while the generated one never does.  A revert makes the
+   generated sc_logv equal to sc_logv_old and these two statements contradict logv_locks_legal. *)
+Definition logv_old_st (st : lstate) (package category priority msg : Z) : list event :=
+  sc_logv_old (is_reg st) (pk_thr st) (pk_h st) (s_dthr st) (s_dhandler st) (s_stream st) STDOUT
+              (s_ident st) (s_tfile st) (s_tprio st) package category priority msg.
+
+Theorem logv_old_locks_unregistered st package c q msg :
+  package <> -1 -> is_reg st package = 0 ->
+  In (1, 0, 0, package, 0, 0, 0) (logv_old_st st package c q msg)
+  /\ lock_legal st package = false
+  /\ ~ In (1, 0, 0, package, 0, 0, 0) (logv_st st package c q msg)
+  /\ deliveries (logv_old_st st package c q msg) = deliveries (logv_st st package c q msg).
+Proof.
+  intros Hn Hr.
+  assert (Ee : eff_pkg st package = -1).
+  { unfold eff_pkg, g_eff_pkg. rewrite Hr. change (z2b 0) with false. rewrite orb_true_r. reflexivity. }
+  split; [left; reflexivity|]. split.
+  - unfold lock_legal. rewrite Hr. apply Z.eqb_neq in Hn. rewrite Hn. reflexivity.
+  - split.
+    + intros H.
+      assert (Hl : In (1, 0, 0, package, 0, 0, 0) (locks (logv_st st package c q msg))).
+      { unfold locks. apply filter_In. split; [exact H|reflexivity]. }
+      apply logv_locks_legal in Hl. destruct Hl as [[Hl|Hl] _]; rewrite Ee in Hl; congruence.
+    + rewrite logv_deliveries. reflexivity.
+Qed.
+
+Theorem logv_old_example :
+  exists st package c q msg,
+    package <> -1 /\ is_reg st package = 0
+    /\ logv_old_st st package c q msg <> logv_st st package c q msg.
+Proof. exists (init_state false), 0, 2, 5, 7. vm_compute. repeat split; discriminate. Qed.
 
 (* ------------------------------------------------------------------------------------------ *)
 (* 3. The macros in front of sc_log                                                           *)
@@ -231,7 +328,7 @@ Theorem gen_logf_step dbg st package c q msg :
   if q <? lp_threshold dbg then Some (st, []) else step dbg st (OLogv package c q msg).
 Proof.
   cbn [step]. rewrite gen_logf_macro. destruct (q <? lp_threshold dbg); cbn; [reflexivity|].
-  destruct (logv_full st package c q msg); [rewrite app_nil_r|]; reflexivity.
+  rewrite app_nil_r. reflexivity.
 Qed.
 
 (* the convenience macros: fixed category and priority, package sc_package_id; never dropped for ERROR,
